@@ -81,11 +81,11 @@ func (SlidingWindow) New(cfg Config) fiber.Handler {
 		// Remember the window this hit is counted in
 		windowExp := e.exp
 
-		// weight = time until current window reset / total window length
-		weight := float64(resetInSec) / float64(expiration)
-
-		// rate = request count in previous window - weight + request count in current window
-		rate := int(float64(e.prevHits)*weight) + e.currHits
+		// rate = request count in previous window * weight + request count in current window,
+		// weight = time until current window reset / total window length.
+		// Whole-number arithmetic: a float64 weight undercounts by one when the product is a
+		// whole number that the rounded weight just misses (22 hits * (15.0 / 22.0) < 15).
+		rate := e.prevHits*int(resetInSec)/int(expiration) + e.currHits //nolint:gosec // seconds of one window
 
 		// Calculate how many hits can be made based on the current rate
 		remaining := maxRequests - rate
